@@ -30,9 +30,10 @@ Definition mk_case (tasks : list (N * N)) (root : list N) (syms : list (list N))
 
 Require Import UV.C15.Doc.
 Definition mk_dcase (k : case) (comms : list (N * list N)) (version date : list N) (cmdline : option (list N))
-  (noev : bool) (doc : list N) : dcase :=
+  (noev : bool) (renames : list (N * N * list N)) (doc : list N) : dcase :=
   {| d_case := k; d_comms := comms; d_version := version; d_date := date; d_cmdline := cmdline;
-     d_noev := noev; d_doc := doc |}.
+     d_noev := noev; d_renames := renames; d_doc := doc |}.
+Definition rn (tm : N) (tid : int) (nm : list N) : N * N * list N := (tm, n_ tid, nm).
 Definition cm (tid : int) (comm : list N) : N * list N := (n_ tid, comm).
 
 Require Import UV.C15.GraphF.
@@ -47,3 +48,6 @@ Require Import UV.C15.BackTrace.
 Definition bt_ (key : list int) (hit : int) (t : option (N * N * N)) : pbt := (map n_ key, n_ hit, t).
 Definition mk_bcase (k : case) (func : list N) (printed : list pbt) : bcase :=
   {| bk_case := k; bk_func := func; bk_printed := printed |}.
+
+Definition mk_acase (k : case) (total : N) (lines : list (list N)) : acase :=
+  {| ak_case := k; ak_total := total; ak_lines := lines |}.
